@@ -592,6 +592,12 @@ class StmtMixin:
                 keys.update(fields_named(n.attr))
             elif isinstance(n, ast.Subscript) and isinstance(n.ctx, (ast.Store, ast.Del)):
                 keys.update(CONT)
+            elif isinstance(n, ast.AugAssign):
+                # `xs += ys` extends a list IN PLACE; |=, -=, &= update sets / dicts in place
+                if isinstance(n.op, ast.Add):
+                    keys.update(LISTK)
+                elif isinstance(n.op, (ast.BitOr, ast.Sub, ast.BitAnd, ast.BitXor)):
+                    keys.update(SETK + DICTK)
             elif isinstance(n, (ast.List, ast.ListComp)):
                 keys.update(LISTK)
             elif isinstance(n, (ast.Set, ast.SetComp)):
